@@ -16,7 +16,7 @@ Decided clauses (resolved MIR, all paths).  The generating entry may be factored
      source (sibling agreement on the method name) and contain no panic-capable callee.
 Not decided: panics inside naga's front end, validator or diagnostic renderer (library)."""
 from engine_mir import Mir, op_local, op_place
-from mirutil import cname, method, guards, chain_of, panic_sites, canon, forward_taint, reads_field, local_from_field, local_is_field_value, place_reads_field
+from mirutil import feasible_reach, cname, method, guards, chain_of, panic_sites, canon, forward_taint, reads_field, local_from_field, local_is_field_value, place_reads_field
 
 ERR = 'CreateModuleError'
 PLUMBING = ('std::result::Result::<T, E>::map_err', '<std::result::Result<T, E> as std::ops::Try>::branch', '<std::result::Result<T, F> as std::ops::FromResidual',
@@ -89,7 +89,12 @@ def run(rep):
     mir = Mir()
     rep.explanation = __doc__
     rep.trusted = ['rustc nightly MIR + Instance resolution', 'naga front end / validator / diagnostics do not panic']
-    P = [n for n, b in mir.bodies.items() if any(cname(t) == 'naga::front::wgsl::parse_str' for _, t in b.calls())]
+    # front-end steps delegated to sibling helpers (parse_module / check_module / validate_module ..) are inlined into the function that joins
+    # them with the emission functions, so that the path rules see parse -> validate -> emission in one control-flow graph
+    from engine_mir import inline_front_end
+    top, helpers = inline_front_end(mir)
+    rep.info['front_end_helpers_inlined'] = sorted(helpers)
+    P = [n for n, b in mir.bodies.items() if n not in helpers and any(cname(t) == 'naga::front::wgsl::parse_str' for _, t in b.calls())]
     rep.floor('function calling the WGSL front end', len(P), 1)
     if len(P) != 1:
         rep.check(len(P) == 1, 'C17.1.single-parse', 'parse-once', '', f'{len(P)} functions call the front end', ok_detail='one')
@@ -107,7 +112,7 @@ def run(rep):
         nxt = []
         for fn in frontier:
             for cn, cb in sorted(mir.bodies.items()):
-                if cb.kind == 'Closure' or cn in seen:
+                if cb.kind == 'Closure' or cn in seen or cn in helpers:
                     continue
                 sites = [(bb, t) for bb, t in cb.calls() if cname(t) == fn]
                 if sites:
@@ -183,6 +188,8 @@ def run(rep):
     # ---- 3/4: validation -----------------------------------------------------------------------------------------------------------------
     accessors0 = set()
     for n2, b2 in mir.bodies.items():
+        if n2 in helpers:
+            continue
         if b2.kind != 'Closure' and n2 not in chain_fns and not (n2.startswith('<') and ' as ' in n2) and reads_field(b2, 'WriteOptions', 'validate'):
             callers = {cn for cn, cb in mir.bodies.items() for _, t in cb.calls() if cname(t) == n2}
             if callers and callers <= chain_fns and local_is_field_value(mir, b2, 0, 'WriteOptions', 'validate'):
@@ -233,7 +240,7 @@ def run(rep):
         else:
             vs, vsucc, verr = vrb
             some_tgt = [tgt for v, tgt in edges if v == with_v[0]][0]
-            unguarded = T.reachable_from([some_tgt], avoid={vsucc, sw})
+            unguarded = feasible_reach(T, [some_tgt], avoid={vsucc, sw})      # paths through an inlined helper's Err return cannot continue on Ok
             bad_calls = [cname(t) for b, t in gen if b in unguarded]
             bad_calls += [cname(t) + ' (before the validation gate)' for b, t in gen if sw not in dom[b]]
             rep.check(not bad_calls, 'C17.3.validate-dominates', f'validate-dominates:{tn}', T.where(vb),
@@ -256,9 +263,11 @@ def run(rep):
                   f'the arms of the branch on options.validate call {extra[:5]}: something other than the validator depends on the option', ok_detail='arms of the validate branch contain only validator plumbing')
 
         def through(t):
-            return method(cname(t)) in ('map_err', 'branch', 'ok', 'is_ok', 'is_err', 'err', 'from_residual', 'map', 'as_ref', 'transpose')
+            return method(cname(t)) in ('map_err', 'branch', 'ok', 'is_ok', 'is_err', 'err', 'map', 'as_ref', 'transpose')
         tainted, consumers = forward_taint(T, [vt['dest']['l']], through)
-        leaks = [cname(t) for b, t in consumers if not through(t) and cname(t) != 'std::mem::drop']
+        # `from_residual` builds the error that is returned: a legitimate end of the flow (not followed further: after a helper was inlined its
+        # return slot is shared with the success value)
+        leaks = [cname(t) for b, t in consumers if not through(t) and cname(t) != 'std::mem::drop' and not cname(t).endswith('::from_residual')]
         # the tainted value must not be returned either (only errors are)
         rep.check(not leaks, 'C17.4.module-info-dropped', f'module-info:{tn}', T.where(vb),
                   f'the value returned by Validator::validate flows into {leaks[:4]}: generation then uses the validator\'s analysis, so enabling validation can change the output',
@@ -269,6 +278,8 @@ def run(rep):
     for n2, b2 in sorted(mir.bodies.items()):
         if n2.startswith('<') and ' as ' in n2:
             continue
+        if n2 in helpers:
+            continue        # inlined into the generating function: judged there
         if reads_field(b2, 'WriteOptions', 'validate') and n2 not in chain_fns:
             # an accessor helper: returns the option's value itself (its Some/None-ness is that of `validate`) and is called from the chain only
             callers = {cn for cn, cb in mir.bodies.items() for _, t in cb.calls() if cname(t) == n2}
